@@ -134,6 +134,14 @@ func (db *DB) Merge() error {
 			return err
 		}
 	}
+	// 写满后被替换下来的重写文件同样需要关闭, mmap 文件在关闭时才会恢复为真实大小
+	for fileID := uint32(0); mergeDB.activeFile != nil && fileID < mergeDB.activeFile.ID; fileID++ {
+		if file := mergeDB.olderFiles[fileID]; file != nil {
+			if err := file.Close(); err != nil {
+				return err
+			}
+		}
+	}
 
 	// 在 merge 临时目录创建并打开 merge 完成标识文件
 	mergeFinishedFile, err := datafile.OpenFile(mergePath, 0,
